@@ -10,7 +10,7 @@ import ast
 import itertools
 
 from ..astutil import dotted, src, walk_shallow
-from ..genekernel import (chrom_parent, gene_interp, mk_collection, mk_feature, mk_feature_collection, mk_gene,
+from ..genekernel import (chrom_parent, chunk_parent, gene_interp, mk_collection, mk_feature, mk_feature_collection, mk_gene,
                           mk_transcript)
 from ..interp import Obj, Raised, Uninterpretable
 from ..lockernel import blocks_of, is_empty_obj, run, strands
@@ -49,6 +49,9 @@ SMALL = dict(
            dict(id="s2", txs=[dict(exons=[(22, 30)], strand="MINUS", cds=None), dict(exons=[(24, 28)], strand="MINUS", cds=[(24, 27)])])],
     fcs=[dict(id="sf", feats=[dict(blocks=[(12, 18), (31, 36)], strand="MINUS")])],
 )
+
+
+CHUNK = (2, 40)
 
 
 def build(it, S, model, parent, start=None, end=None):
@@ -102,6 +105,12 @@ def _pos_case(repo, it, S, spec):
     n = 0
     model = BIG if which == "big" else SMALL
     parent = None if which == "big" else chrom_parent(it, GENOME, alphabet="NT_EXTENDED")
+    chunk = None
+    if which.startswith("chunk"):
+        # the same small collection on a sequence chunk; "chunkwide": its declared bounds are wider than the chunk (as after an
+        # identifier query that widened the bounds to overhanging members)
+        chunk = CHUNK
+        parent = chunk_parent(it, GENOME, chunk[0], chunk[1], alphabet="NT_EXTENDED")
     cache = it.__dict__.setdefault("_c09_cache", {})
     key = (which, bounds)
     if key not in cache:
@@ -135,7 +144,7 @@ def _pos_case(repo, it, S, spec):
                     for i in want:
                         wa, wb = min(wa, sp[i][0]), max(wb, sp[i][1])
                 if k != "ok":
-                    if which == "small" and expand and (wa < cstart or wb > cend) and v == "InvalidQueryError":
+                    if which != "big" and expand and (wa < cstart or wb > cend) and v == "InvalidQueryError":
                         continue
                     out.append(("query", f"{desc} raises {v}; expected members {want}", f.qual))
                     continue
@@ -154,15 +163,15 @@ def _pos_case(repo, it, S, spec):
                     d = plain(run(it, repo.fn(q), [], {}, o)[1])
                     if d != src_dicts[oid]:
                         out.append(("members retained", f"{desc}: member {oid} changed its dictionary form (coordinates / identifiers) in the result", f.qual))
-                if which == "small":
-                    # member sequences = source sequences restricted to the new bounds
+                if which != "big":
+                    # member sequences = source sequences restricted to the new bounds (and to the chunk that carries sequence)
                     for g in v.fields["genes"]:
                         for tx in g.fields["transcripts"]:
                             loc = tx.fields["_location"]
                             exons = list(zip(tx.fields["_genomic_starts"], tx.fields["_genomic_ends"]))
                             sn = tx.fields["_strand"].name
                             from .c01 import enum_positions
-                            inside = [p for p in enum_positions(exons, sn) if wa <= p < wb]
+                            inside = [p for p in enum_positions(exons, sn) if wa <= p < wb and (chunk is None or chunk[0] <= p < chunk[1])]
                             if not inside:
                                 continue
                             n += 1
@@ -262,6 +271,9 @@ def rk_position(ctx):
     for i, a in enumerate(scuts):
         for b in scuts[i:]:
             specs.append(("small", None, a, b))
+            if ctx.thorough or (i + scuts.index(b)) % 2 == 0:
+                specs.append(("chunk", None, a, b))
+                specs.append(("chunkwide", (0, len(GENOME)), a, b))
     ctx.r.floor("C09.RK", "position queries", len(specs), 150)
     from ..par import pmap
     results = pmap(_runner(ctx.repo, _pos_case), specs)
